@@ -11,7 +11,7 @@ import copy
 import random as pyrandom
 from fractions import Fraction
 
-from vlib import cz, czl, cnat, cnatl, cbool, clist, copt, cq
+from vlib import cz, czl, cnat, cnatl, cbool, clist, copt, cq, cfloat
 
 # --------------------------------------------------------------------------------------------
 # recording environment
@@ -203,6 +203,84 @@ def wrap_mutate(inner):
     return mutate
 
 
+# ---- recording for the COMPOSED model (Corr/C03_Full.v): draws of deap.algorithms' `random`, operator script ----
+class AlgoRandom(object):
+    """stands for the name `random` inside deap.algorithms: every call is a draw of the composed model.
+    random() values are logged bit-exactly (a share of them is taken from `edge`, the values the code compares
+    with); sample / choice are answered and logged by POSITION, and raise what CPython's raise."""
+
+    def __init__(self, rng, log, edge):
+        self._rng = rng
+        self._log = log
+        self._edge = edge
+
+    def random(self):
+        if self._edge and self._rng.random() < 0.3:
+            u = self._rng.choice(self._edge)
+        else:
+            u = self._rng.random()
+        self._log.append(("R", u))
+        return u
+
+    def sample(self, population, k):
+        n = len(population)
+        if not 0 <= k <= n:
+            raise ValueError("Sample larger than population or is negative")
+        idx = self._rng.sample(range(n), k)
+        assert k == 2
+        self._log.append(("S", n, idx[0], idx[1]))
+        return [population[i] for i in idx]
+
+    def choice(self, seq):
+        if not len(seq):
+            raise IndexError("Cannot choose from an empty sequence")
+        i = self._rng.randrange(len(seq))
+        self._log.append(("C", len(seq), i))
+        return seq[i]
+
+    def __getattr__(self, name):
+        return getattr(self._rng, name)
+
+
+def full_ret(FR, r, a, b):
+    """how the model describes a returned object: first / second argument, or a NEW object (numbered now,
+    in the order the model allocates: first result, then second)"""
+    if r is a:
+        return ("A1",)
+    if b is not None and r is b:
+        return ("A2",)
+    if id(r) in REC.ids:
+        FR["bad"] = "an operator returned an object that is neither an argument nor new"
+    d = describe(r)
+    return ("N", d[1], d[2])
+
+
+def full_mate(inner, FR):
+    def mate(a, b):
+        with quiet():
+            ia, ib = describe(a), describe(b)
+            o1, o2 = inner(a, b)
+            oa, ob = describe(a), describe(b)
+            r1 = full_ret(FR, o1, a, b)
+            r2 = full_ret(FR, o2, a, b)
+            if o1 is o2:
+                FR["bad"] = "mate returned one object twice"
+            FR["script"].append(("mate", ia[1:], ib[1:], oa[1:], ob[1:], r1, r2))
+        return o1, o2
+    return mate
+
+
+def full_mutate(inner, FR):
+    def mutate(a):
+        with quiet():
+            ia = describe(a)
+            out = inner(a)
+            oa = describe(a)
+            FR["script"].append(("mutate", ia[1:], oa[1:], full_ret(FR, out[0], a, None)))
+        return out
+    return mutate
+
+
 def make_stats(tools, variant="snap"):
     class SnapStats(tools.Statistics):
         def compile(self, data):
@@ -385,9 +463,16 @@ def run_impl(cfg):
         mut_in = lambda ind: tools.mutFlipBit(ind, indpb=0.3)  # noqa
     else:
         mate_in, mut_in = s_mate, s_mutate
+    # composed-model recording: a single leg of eaSimple / eaMuPlusLambda / eaMuCommaLambda on list-like genotypes
+    full = bool(cfg.get("full")) and not cfg.get("legs") and cfg["kind"] in ("simple", "plus", "comma") and not tree_mode
+    FR = {"draws": [], "script": [], "bad": None}
     if any_harm:
         tb.register("mate", wrap_mate(mate_in))
         tb.register("mutate", wrap_mutate(mut_in))
+        tb.register("clone", wrap_clone())
+    elif full:
+        tb.register("mate", full_mate(mate_in, FR))
+        tb.register("mutate", full_mutate(mut_in, FR))
         tb.register("clone", wrap_clone())
     else:
         tb.register("mate", mate_in)
@@ -526,6 +611,10 @@ def run_impl(cfg):
         old_gp_random = gp.random
         gp.random = RandomProxy(pyrandom.Random(cfg["seed"] + 2 + li), leg.get("grid"))
         gp.sorted = marker_sorted
+        old_alg_random = algorithms.random
+        if full:
+            cx_, mu_ = float(leg["cxpb"]), float(leg["mutpb"])
+            algorithms.random = AlgoRandom(pyrandom.Random(cfg["seed"] + 77), FR["draws"], cfg.get("edge", [cx_, mu_, cx_ + mu_]))
         try:
             try:
                 with contextlib.redirect_stdout(out_sink):
@@ -547,13 +636,15 @@ def run_impl(cfg):
             finally:
                 REC.len_on = False
                 algorithms.varAnd, algorithms.varOr = orig_and, orig_or
+                algorithms.random = old_alg_random
                 gp.random = old_gp_random
                 del gp.sorted
         except DrawCap:
             results.append((leg, {"skipped": "draw cap reached (acceptance loop did not terminate within the cap)"}))
             break
         except Exception as e:  # noqa
-            results.append((leg, {"raised": type(e).__name__ + ": " + str(e)[:200]}))
+            results.append((leg, {"raised": type(e).__name__ + ": " + str(e)[:200], "raised_type": type(e).__name__,
+                                  "objs": objs, "pop0": pop_uids, "events": REC.ev[ev0:], "full": FR if full else None}))
             break
         rpop, logbook = ret
         mine = generated[ngenerated0:]
@@ -565,7 +656,7 @@ def run_impl(cfg):
                "hof_final": None if hof is None or len(hof.items) == 0 else fitvals(hof[0]),
                "hof_all": None if hof is None else [fitvals(h) for h in hof.items],
                "printed": len(out_sink.getvalue()),
-               "fresh_hof": li == 0 or leg.get("fresh_hof", True),
+               "fresh_hof": li == 0 or leg.get("fresh_hof", True), "full": FR if full else None,
                "gu_ret_is_last": (kind == "gu") and ((ngen == 0 and list(rpop) == [] and not mine) or
                                                      (ngen > 0 and bool(mine) and rpop is mine[-1]))}
         results.append((leg, obs))
@@ -824,6 +915,69 @@ def coq_term(cfg, obs):
         objs, cnatl(obs["pop0"]), clist(ogs), calls, recs, shown, final, cbool(inplace))
 
 
+# ---- term for the composed model (Corr/C03_Full.v) ----
+def cobjc(c):
+    return "(%s, %s)" % (czl(c[0]), copt(c[1], czl))
+
+
+def cdraw(d):
+    if d[0] == "R":
+        return "dR %s" % cfloat(d[1])
+    if d[0] == "S":
+        return "dS %s %s %s" % (cnat(d[1]), cnat(d[2]), cnat(d[3]))
+    return "dC %s %s" % (cnat(d[1]), cnat(d[2]))
+
+
+def cret(r, one=False):
+    if r[0] == "A1":
+        return "uA" if one else "rA1"
+    if r[0] == "A2":
+        return "rA2"
+    return "(%s %s)" % ("uN" if one else "rN", cobjc(r[1:]))
+
+
+def cop(e):
+    if e[0] == "mate":
+        return "OMate %s %s %s %s %s %s" % (cobjc(e[1]), cobjc(e[2]), cobjc(e[3]), cobjc(e[4]), cret(e[5]), cret(e[6]))
+    return "OMut %s %s %s" % (cobjc(e[1]), cobjc(e[2]), cret(e[3], one=True))
+
+
+def full_head(cfg, obs):
+    k = {"simple": "FSimple", "plus": "FPlus", "comma": "FComma"}[cfg["kind"]]
+    objs = obs["objs"]
+    assert [o[0] for o in objs] == list(range(len(objs))), objs
+    fr = obs["full"]
+    return k, "%s %s %s %s %s %s %s %s %s %s" % (
+        cevp(cfg["evp"]), czl(cfg["weights"]), cnat(cfg.get("mu", 0)), cz(cfg.get("lam", 0)),
+        cfloat(cfg["cxpb"]), cfloat(cfg["mutpb"]), clist([cobjc(o[1:]) for o in objs]), cnatl(obs["pop0"]),
+        clist([cdraw(d) for d in fr["draws"]]), clist([cop(e) for e in fr["script"]]))
+
+
+def csel(e):
+    return "(mkos %s %s %s)" % (cnatl(e[1]), cnat(e[2]), cnatl(e[3]))
+
+
+def coq_term_full(cfg, obs):
+    gens, _ = split_generations(obs)
+    calls, recs, shown, final = common_observables(cfg, obs, gens)
+    k, head = full_head(cfg, obs)
+    sels = [csel([e for e in evs if e[0] == "select"][0]) for evs in gens[1:]]
+    return "CFull %s %s %s %s %s %s %s %s %s" % (k, cnat(cfg["ngen"]), head, clist(sels), calls, recs, shown, final,
+                                                cbool(obs["ret_is_caller"]))
+
+
+def coq_term_full_raise(cfg, obs):
+    """the loop left with an exception: the selection answers recorded so far, plus an empty answer for the
+    generation that raised when its select call was not reached (mu+lambda / mu,lambda select after varOr)"""
+    k, head = full_head(cfg, obs)
+    sels = [csel(e) for e in obs["events"] if e[0] == "select"]
+    nstats = len([e for e in obs["events"] if e[0] == "stats"])
+    if nstats >= 1 and len(sels) < nstats:
+        sels.append("(mkos [] 0%nat [])")
+    x = {"AssertionError": "XAssertion", "ValueError": "XValue", "IndexError": "XIndex"}[obs["raised_type"]]
+    return "CFullRaise %s %s %s %s" % (k, head, clist(sels), x)
+
+
 # --------------------------------------------------------------------------------------------
 # configuration generators (all guards of the real code respected, see design_notes/C03.md)
 # --------------------------------------------------------------------------------------------
@@ -1043,23 +1197,38 @@ def main(run):
                 "with recording operators: exhaustive small grid (ngen 0..2 x population 0..3 x extreme probabilities) plus seeded random "
                 "configurations with ngen 0..4, population 0..5, partly pre-evaluated individuals, cxpb/mutpb in {0,.25,.5,.75,1}, mu<=lambda, "
                 "scripted and real operators (cxTwoPoint/mutFlipBit/selTournament/selBest; GP trees with cxOnePoint/mutUniform for harm). "
+                "every single-leg eaSimple / eaMuPlusLambda / eaMuCommaLambda run is replayed twice: by the loop model on the observed "
+                "variation results (Corr/C03.v) and by the composed model on the recorded draws and operator script (Corr/C03_Full.v), plus "
+                "runs that leave with the exceptions of varOr's guards; "
                 "distinct = different configuration; non-trivial = at least one generation executed on a non-empty population")
     run.trusted += ["Coq 8.16.1 kernel and vm_compute",
                     "hand-written model coq/Model/C03_Loops.v tied by correspondence (harness/c03.py, coq/Corr/C03.v)",
                     "recording wrappers of harness/c03.py (uid registry, len()/random()/sorted() hooks in deap.gp, varAnd/varOr wrappers)",
                     "fitness values restricted to integer-valued floats (order-isomorphic to Z)",
-                    "CPython semantics of slice assignment, zip, map, list.sort stability"]
+                    "CPython semantics of slice assignment, zip, map, list.sort stability",
+                    "composed model coq/Model/C03_Full.v (loops over C02's heap calling var_and / var_or) tied by correspondence "
+                    "(coq/Corr/C03_Full.v): proxy for the name `random` of deap.algorithms (random() bit exact, sample / choice by "
+                    "position), toolbox.clone / mate / mutate wrappers numbering objects in allocation order and recording the operator script"]
     run.assumptions += ["evaluate is a function of the genotype", "select returns k elements of its argument",
-                        "variation satisfies the C02 contract (offspring valid => copy of a parent; invalid offspring are distinct new objects)",
+                        "Props/C03.v: variation satisfies the C02 contract (offspring valid => copy of a parent; invalid offspring are "
+                        "distinct new objects); Props/C03_full.v: no such hypothesis (derived from C02's theorems), instead mate / mutate stay "
+                        "inside C02's frame (write only to their arguments, return arguments or new objects), mate returns two different "
+                        "objects (eaSimple), members of the initial population own their Fitness objects",
                         "initially invalid individuals are distinct objects; pre-set fitnesses are truthful",
                         "harm: acceptance loop terminates; mate returns two distinct objects"]
     run.build_props()
+    run.build_props(props="Props/C03_full.v", extra=["Corr/C03_Full.v"])
     rng = run.rng
     terms, cases = [], []
-    stats = {"skipped": 0}
+    full_terms, full_cases = [], []
+    stats = {"skipped": 0, "full_unsupported": 0}
     cov = {}
 
     def do(cfg, corr=True):
+        # every single-leg run of eaSimple / eaMuPlusLambda / eaMuCommaLambda is ALSO recorded for the composed
+        # model (draws of deap.algorithms' random, operator script) and replayed by Corr/C03_Full.v
+        if corr and cfg["kind"] in ("simple", "plus", "comma") and not cfg.get("legs") and not cfg.get("tree"):
+            cfg["full"] = True
         results = run_impl(cfg)
         carry = None
         for li, (leg, obs) in enumerate(results):
@@ -1094,6 +1263,12 @@ def main(run):
             if corr and obs.get("fresh_hof", True) and leg.get("stats", True) and leg.get("hof", True):
                 terms.append(coq_term(leg, obs))
                 cases.append(pub)
+                if li == 0 and obs.get("full") is not None:
+                    if obs["full"]["bad"]:
+                        stats["full_unsupported"] += 1      # an operator outside C02's frame: not replayed
+                    else:
+                        full_terms.append(coq_term_full(leg, obs))
+                        full_cases.append(pub)
 
     # the repaired defect, replayed on every run
     do({"kind": "gu", "evp": [1, 0, 7, False], "weights": [1], "seed": 1, "ngen": 0, "n": 0, "genos": [], "preeval": [],
@@ -1149,6 +1324,56 @@ def main(run):
                     if kind != "harm":
                         cfg["genos"] = [[rng.randint(0, 3) for _ in range(rng.randint(1, 5))] for _ in range(cfg["n"])]
                     do(fix_guards(cfg))
+
+
+    # ---- the composed model also predicts WHEN the loops leave with an exception raised by varOr
+    # (C02's guards) or by eaMuCommaLambda's own assertion; replayed through Corr/C03_Full.v ----
+    def do_raise(cfg, want):
+        cfg["full"] = True
+        leg, obs = run_impl(cfg)[0]
+        pub = cfg_public(leg)
+        pub["expect_raise"] = want
+        run.note_case(pub, True)
+        if obs.get("raised_type") != want:
+            run.oracle_violation("the loop was expected to leave with %s (guard of varOr / eaMuCommaLambda), observed %r"
+                                 % (want, obs.get("raised", "a normal return")), pub, observed=obs.get("raised"))
+            return
+        full_terms.append(coq_term_full_raise(leg, obs))
+        full_cases.append(pub)
+
+    for rep in range(run.scale(2, 8)):
+        for kind in ("plus", "comma"):
+            base = {"evp": [1, 0, 7, False], "weights": [1], "hofsize": 1, "opstyle": rng.choice(["inplace", "functional", "fresh"]),
+                    "sel": "firstk", "kind": kind}
+            # random.sample(population, 2) on one individual: ValueError in generation 1
+            do_raise(dict(base, seed=rng.randrange(10 ** 9), ngen=2, n=1, genos=[[1, 2]], preeval=[rng.random() < 0.5],
+                          mu=1, lam=2, cxpb=1.0, mutpb=0.0), "ValueError")
+            # ... and in generation 2, once mu = 1 individual is left
+            do_raise(dict(base, seed=rng.randrange(10 ** 9), ngen=3, n=3, genos=[[1, 2], [0, 3], [2]], preeval=[True, False, True],
+                          mu=1, lam=2, cxpb=1.0, mutpb=0.0), "ValueError")
+            # random.choice on an empty population: IndexError
+            do_raise(dict(base, seed=rng.randrange(10 ** 9), ngen=1, n=0, genos=[], preeval=[], mu=0, lam=2,
+                          cxpb=0.0, mutpb=rng.choice([0.0, 0.5])), "IndexError")
+            # the assertion of varOr
+            do_raise(dict(base, seed=rng.randrange(10 ** 9), ngen=1, n=2, genos=[[1], [2]], preeval=[True, True], mu=2, lam=2,
+                          cxpb=0.75, mutpb=0.5), "AssertionError")
+        # eaMuCommaLambda's own assertion lambda_ >= mu
+        do_raise({"evp": [1, 0, 7, False], "weights": [1], "hofsize": 1, "opstyle": "inplace", "sel": "firstk", "kind": "comma",
+                  "seed": rng.randrange(10 ** 9), "ngen": 1, "n": 2, "genos": [[1], [2]], "preeval": [True, False],
+                  "mu": 3, "lam": 2, "cxpb": 0.0, "mutpb": 0.0}, "AssertionError")
+
+    # ---- probabilities whose float sum is rounded (0.1 + 0.2), draws on the comparison values ----
+    for rep in range(run.scale(6, 40)):
+        kind = rng.choice(["simple", "plus", "comma"])
+        cfg = gen_simple(rng, n=rng.randint(2, 5), ngen=rng.randint(1, 3)) if kind == "simple" else \
+            gen_mu(rng, kind, n=rng.randint(2, 5), ngen=rng.randint(1, 3))
+        cfg["cxpb"], cfg["mutpb"] = rng.choice([(0.1, 0.2), (0.2, 0.1), (0.3, 0.7), (0.7, 0.1), (0.1, 0.7)])
+        cfg["edge"] = [0.1, 0.2, 0.3, 0.30000000000000004, 0.7, 0.7999999999999999, 0.8, 0.1 + 0.7, 1.0 - 2 ** -53]
+        cfg["alias"] = []
+        if kind != "simple":
+            cfg["mu"] = max(2, cfg["mu"])
+            cfg["lam"] = max(cfg["mu"], cfg["lam"])
+        do(cfg)
 
     # ---- seeded random ----
     nrand = run.scale(100, 800)
@@ -1214,6 +1439,10 @@ def main(run):
 
     run.extra_cov["skipped_nonterminating"] = stats["skipped"]
     run.extra_cov["dimensions"] = cov
+    run.extra_cov["full_model_cases"] = len(full_terms)
+    run.extra_cov["full_model_unsupported_operator"] = stats["full_unsupported"]
     run.correspond("loops", "C03", terms, cases, shard=run.scale(60, 120))
+    run.correspond("full", "C03_Full", full_terms, full_cases, shard=run.scale(40, 100),
+                   requires=["From Coq Require Import PrimFloat."])
     for i, (t, c) in enumerate(zip(big_terms, big_cases)):
         run.correspond("harm_default_%d" % i, "C03", [t], [c])
